@@ -455,6 +455,10 @@ func runL3(args []string) {
 		}
 		var gerr error
 		panicked := ""
+		warm := cr.Chance(1, 2)
+		if warm {
+			dist["run-before-with-other-layout"]++
+		}
 		func() {
 			defer func() {
 				if p := recover(); p != nil {
@@ -463,8 +467,20 @@ func runL3(args []string) {
 			}()
 			sqldb, st := fakedrv.Open()
 			defer sqldb.Close()
+			db := sqlair.NewDB(sqldb)
+			if warm {
+				// the same Statement has already been run on this DB, and the result then had its
+				// columns in another order: what counts is the layout of the rows being read
+				rn := make([]string, len(colNames))
+				rv := make([]driver.Value, len(rowVals))
+				for i := range colNames {
+					rn[len(rn)-1-i], rv[len(rv)-1-i] = colNames[i], rowVals[i]
+				}
+				st.SetScript(fakedrv.Script{Columns: rn, Rows: [][]driver.Value{rv}})
+				db.Query(context.Background(), stmt, qargs...).Run()
+			}
 			st.SetScript(fakedrv.Script{Columns: colNames, Rows: [][]driver.Value{rowVals}})
-			gerr = sqlair.NewDB(sqldb).Query(context.Background(), stmt, qargs...).Get(dests...)
+			gerr = db.Query(context.Background(), stmt, qargs...).Get(dests...)
 		}()
 		caseJSON := map[string]any{"q": hx(q), "text": printable(q), "cols": colNames, "row": rowJ, "dests": fmt.Sprintf("%#v", dests), "note": note}
 		kb, _ := json.Marshal([]any{q, colNames, rowJ, before})
